@@ -1,6 +1,6 @@
 # table consumed by tools_manifest.py
 ENGINES = [
-    {"name": "vv", "path": "vv/", "serves_properties": ["C09", "C13", "C19"], "kind_free_text": "runtime monitors: generators, independent flatbuffer reader/writer, compile drivers, sharded worker harness, evidence/findings"},
+    {"name": "vv", "path": "vv/", "serves_properties": ["C05", "C09", "C13", "C19"], "kind_free_text": "runtime monitors: generators, independent flatbuffer reader/writer, compile drivers, sharded worker harness, evidence/findings"},
 ]
 NOTES = ("Technique family: runtime monitoring and sanitizers. Every check runs the real code from /repo's working tree (codec rebuilt from the C "
          "sources on every run) under generated workloads with oracles observing executions; verdicts are violated / held-on-what-was-observed / "
@@ -31,3 +31,11 @@ check("C09", "exploration",
       "Own ports of QuantizeMultiplier and of the add/sub/mul parameter derivations (MUL set-valued over float/double arithmetic); average-pool rounding oracle is "
       "TFLite's (half away from zero), equal to round-half-up for non-negative accumulators.",
       "reference-model runtime monitor (exact arithmetic) on direct drive of the real functions", "DESIGN.md 4/C09")
+
+check("C05", "exploration",
+      "Contract on the real allocators: Greedy, LinearAlloc and HillClimb are driven through their real entry points with real Tensor/LiveRange/LiveRangeGraph "
+      "objects over exhaustive small live-range sets (all ordered pairs, stratified/exhaustive triples), random 4-5 range sets and random sets of 20-600 ranges x "
+      "memory limits x iteration limits; an O(n^2) oracle with inclusive end times checks disjointness, alignment, reported total and the HillClimb peak bound; a "
+      "hook on attempt_bottleneck_fix/allocate_indices asserts the iteration bound online; the same oracle wraps every allocator call of real compilations.",
+      "Reported total is accepted within the allocator's own alignment rounding (max_end <= total < max_end + granule); small scopes are bounded as stated in the evidence.",
+      "runtime contract (oracle on return values) + online iteration-bound hook", "DESIGN.md 4/C05")
